@@ -786,7 +786,8 @@ def h_make_cursor(kind):
                 'the iterator must range over exactly the live prefix [0, len) of the container', p)
         if kind == 'drain':
             ctx.req('OUT', z.entails_eq(ms.len, 0) and not p.reads and not p.writes, nm,
-                    'drain() must leave the container empty (len == 0) at once, moving nothing itself', p)
+                    'drain() must leave the container empty (len == 0) at once, moving nothing itself (otherwise a '
+                    'forgotten or half-consumed drain leaves elements owned twice)', p, props=ctx.props | {'C02'})
         else:
             ctx.req('OUT', p.untouched() and p.len_is(0), nm, 'creating a borrowing iterator must change nothing', p)
     return h
@@ -2075,8 +2076,8 @@ HANDLERS.update({
     (SET, None, 'iter'): ({'C09', 'C05'}, h_make_cursor('iter')),
     ('&Map', 'IntoIterator', 'into_iter'): ({'C09'}, h_make_cursor('iter')),
     ('&set::Set', 'IntoIterator', 'into_iter'): ({'C09'}, h_make_cursor('iter')),
-    (MAP, None, 'drain'): ({'C10', 'C01', 'C05'}, h_make_cursor('drain')),
-    (SET, None, 'drain'): ({'C10', 'C07'}, h_make_cursor('drain')),
+    (MAP, None, 'drain'): ({'C10', 'C01', 'C05', 'C02'}, h_make_cursor('drain')),
+    (SET, None, 'drain'): ({'C10', 'C07', 'C02'}, h_make_cursor('drain')),
     (MAP, 'IntoIterator', 'into_iter'): ({'C10'}, h_make_owner),
     (SET, 'IntoIterator', 'into_iter'): ({'C10'}, h_make_owner),
     (MAP, None, 'into_keys'): ({'C10'}, h_make_owner),
